@@ -178,6 +178,12 @@ def prop(case, rec):
         pws += [p] * c
     path = os.path.join(_dir(), 'train.txt')
     trainer.write_training_file(path, pws, enc)
+    if case.get('raw_lines'):
+        # extra raw lines: $HEX[] renderings of ordinary passwords and of text the input filter must refuse (it is the decoded
+        # password that must be valid: a tab, line feed or line separator may not reach the line-oriented rules files)
+        with open(path, 'ab') as f:
+            for hx in case['raw_lines']:
+                f.write(bytes.fromhex(hx) + b'\n')
     out = os.path.join(_dir(), 'R')
     r = guard(case, trainer.train, path, out, encoding=enc, coverage=case['coverage'], ngram=case['ngram'], alphabet_size=case['alphabet_size'])
     if not r.ok:
@@ -271,7 +277,7 @@ def prop(case, rec):
         on_disk = sorted(os.listdir(os.path.join(out, folder)))
         if sorted(listed) != on_disk or len(set(listed)) != len(listed):
             raise Violation('config_file_list', f'config.ini [{section}] lists {sorted(listed)}, {folder}/ contains {on_disk}', case)
-    cls = ['enc_' + enc]
+    cls = ['enc_' + enc] + (['hex_lines_in_training_file'] if case.get('raw_lines') else [])
     if any(ord(ch) > 127 for k in t_cp for ch in k):
         cls.append('non_ascii_ngrams')
     rec.case({'encoding': enc, 'entries': case['entries'][:5], 'length_files': n_len_files}, nonascii or n_len_files >= 3, cls, key=case)
@@ -296,7 +302,15 @@ def cases(draw):
     if enc in ('utf-8', 'latin-1', 'cp1252'):
         base += [['Mañana#1', 2], ['straße99', 2], ['café§', 1]]
     entries += [e for e in base if e[0] not in seen]
-    return {'entries': entries, 'encoding': enc, 'coverage': draw(st.sampled_from([0.6, 0.3, 1, 0])),
+    raw = []
+    for _ in range(draw(st.integers(0, 4))):
+        inner = draw(st.sampled_from(['line\nfeed', 'ta\tb', '\n', 'a\x1cb', 'x\r\ny', 'ok1234', 'pass word', ' lead', '', 'nul\x00', 'del\x7f!']))
+        raw.append((b'$HEX[' + inner.encode('ascii').hex().encode('ascii') + b']').hex())
+    if enc == 'utf-8' and draw(st.booleans()):
+        raw.append((b'$HEX[' + 'ls\u2028x'.encode('utf-8').hex().encode('ascii') + b']').hex())
+        raw.append((b'$HEX[' + 'ps\u2029x'.encode('utf-8').hex().encode('ascii') + b']').hex())
+        raw.append((b'$HEX[' + 'nel\u0085x'.encode('utf-8').hex().encode('ascii') + b']').hex())
+    return {'entries': entries, 'encoding': enc, 'raw_lines': raw, 'coverage': draw(st.sampled_from([0.6, 0.3, 1, 0])),
             'ngram': draw(st.sampled_from([2, 3, 4])), 'alphabet_size': draw(st.sampled_from([100, 30, 10]))}
 
 
